@@ -117,4 +117,39 @@ def timeFormatM (z : ZoneTab) (layout : Bytes) : StageM Unit := ⟨fun s a => (t
 midnight: `u − (h·3600 + m·60 + s)`.  (On a day with a change of offset this is NOT the local day.) -/
 def dayWindowStart (z : ZoneTab) (u : Int) : Int := u - localSecs u (z.lookup u).off
 
+/-! ## round 4c: abbreviations in the text (`Location.lookupName`) on the table
+
+`zones` is the zone list of the tzfile (`l.zone`: name and offset of every zone the location ever
+used, in file order – the harness reads it from the real `*time.Location`). -/
+
+/-- First loop of `lookupName`: a zone of that name that was in effect at the given time – looked up at
+`unix − zone.offset`, and what is returned is the offset `lookup` found there, not the entry's. -/
+def lookupNameFirst (z : ZoneTab) (name : Bytes) (unix : Int) : List (Bytes × Int) → Option Int
+  | [] => none
+  | (zn, zoff) :: rest =>
+    if zn = name then
+      if (z.lookup (unix - zoff)).abbr = zn then some (z.lookup (unix - zoff)).off
+      else lookupNameFirst z name unix rest
+    else lookupNameFirst z name unix rest
+
+/-- `l.lookupName(name, unix)`: otherwise "fall back to an ordinary name match", otherwise give up. -/
+def lookupNameIn (z : ZoneTab) (zones : List (Bytes × Int)) (name : Bytes) (unix : Int) : Option Int :=
+  match lookupNameFirst z name unix zones with
+  | some o => some o
+  | none => (zones.find? (fun e => e.1 == name)).map (·.2)
+
+/-- The instant of a parsed time in a location given as table + zone list: total.  An abbreviation the
+location does not know makes a fabricated zone whose offset is NOT applied (also for `GMT+3`): the
+wall clock is read as UTC. -/
+def instantInN (z : ZoneTab) (zones : List (Bytes × Int)) (p : Parsed) : Int :=
+  let w := wallSeconds p.dt
+  match p.zone with
+  | .utc => w
+  | .offset o => w - o
+  | .name n =>
+    match lookupNameIn z zones n w with
+    | some off => w - off
+    | none => w
+  | .default => dateIn z w
+
 end Rare.C18
